@@ -63,10 +63,11 @@ const (
 	kUnspecified
 	kLinkLocal
 	kPubTCP6
+	kDNSAddr // /dnsaddr name whose TXT record carries the address with a /p2p/<peer> suffix
 	nKinds
 )
 
-var kindNames = [...]string{"priv-tcp", "pub-tcp", "pub-quic", "priv-quic", "pub-wt", "wt-shadow", "ws", "ws-shadow", "relay", "dns", "no-transport", "unspecified", "link-local", "pub-tcp6"}
+var kindNames = [...]string{"priv-tcp", "pub-tcp", "pub-quic", "priv-quic", "pub-wt", "wt-shadow", "ws", "ws-shadow", "relay", "dns", "no-transport", "unspecified", "link-local", "pub-tcp6", "dnsaddr"}
 
 type outcome struct {
 	O        scripted.Outcome
@@ -81,7 +82,9 @@ type addrSpec struct {
 	filtered bool         // the swarm must never hand it to a transport
 	relay    bool
 	fd       bool
-	script   [2]outcome // per round
+	// p2pSuffix (dnsaddr): the resolved form carries /p2p/<peer>, as TXT records do
+	p2pSuffix bool
+	script    [2]outcome // per round
 }
 
 type callerSpec struct {
@@ -114,7 +117,7 @@ func drawAddrs(rt *rapid.T, pi int) []*addrSpec {
 	n := rapid.IntRange(0, 7).Draw(rt, "naddrs")
 	var out []*addrSpec
 	for k := 0; k < n; k++ {
-		kind := addrKind(rapid.SampledFrom([]int{0, 1, 1, 2, 2, 3, 4, 5, 6, 7, 8, 8, 9, 10, 11, 12, 13}).Draw(rt, "kind"))
+		kind := addrKind(rapid.SampledFrom([]int{0, 1, 1, 2, 2, 3, 4, 5, 6, 7, 8, 8, 9, 10, 11, 12, 13, 14, 14}).Draw(rt, "kind"))
 		a := &addrSpec{kind: kind}
 		mk := func(s string) ma.Multiaddr { return ma.StringCast(s) }
 		switch kind {
@@ -169,6 +172,10 @@ func drawAddrs(rt *rapid.T, pi int) []*addrSpec {
 			a.stored, a.filtered = mk(fmt.Sprintf("/ip6/fe80::%d/tcp/4001", k+1)), true
 		case kPubTCP6:
 			a.stored, a.fd = mk(fmt.Sprintf("/ip6/2600:%d::%d/tcp/4001", pi+1, k+1)), true
+		case kDNSAddr:
+			a.stored, a.fd = mk(fmt.Sprintf("/dnsaddr/d%d-%d.example", pi, k+1)), true
+			a.dialled = mk(fmt.Sprintf("/ip4/3.%d.9.%d/tcp/4001", pi, k+1))
+			a.p2pSuffix = rapid.IntRange(0, 3).Draw(rt, "txtHasP2P") != 0
 		}
 		if a.dialled == nil {
 			a.dialled = a.stored
@@ -187,6 +194,12 @@ func drawAddrs(rt *rapid.T, pi int) []*addrSpec {
 		}
 		drawScripts(a)
 		out = append(out, a)
+		if a.kind == kDNSAddr && rapid.Bool().Draw(rt, "alsoKnownPlainly") {
+			// the peer is also known by the very address the name resolves to
+			b := *a
+			b.kind, b.stored, b.p2pSuffix = kPubTCP, a.dialled, false
+			out = append(out, &b)
+		}
 		if a.kind == kDNS {
 			// a name with several records: every record is an address of its own (same stored form)
 			for x, extra := 1, rapid.SampledFrom([]int{0, 0, 1, 2}).Draw(rt, "dnsRecords"); x <= extra; x++ {
@@ -229,6 +242,13 @@ func drawScenario(rt *rapid.T) *scenario {
 					cs.deadline = time.Duration(rapid.SampledFrom([]int{1, 30, 250, 1000, 8000}).Draw(rt, "deadline"))*time.Millisecond + 2500*time.Microsecond
 				}
 				cs.forceDirect = rapid.IntRange(0, 4).Draw(rt, "forceDirect") == 0
+				for _, a := range sc.addrs[pi] {
+					if a.relay && !cs.forceDirect {
+						// callers that can and callers that cannot use a relayed connection share a worker more often
+						cs.forceDirect = rapid.IntRange(0, 2).Draw(rt, "forceDirectWithRelay") == 0
+						break
+					}
+				}
 				cs.simConnect = rapid.IntRange(0, 7).Draw(rt, "simConnect") == 0
 				if rapid.IntRange(0, 5).Draw(rt, "peerTimeout") == 0 {
 					cs.peerTimeout = time.Duration(rapid.SampledFrom([]int{100, 3000, 10000}).Draw(rt, "pt")) * time.Millisecond
@@ -255,9 +275,18 @@ func drawScenario(rt *rapid.T) *scenario {
 
 // ---------------------------------------------------------------------------
 
-type resolver struct{ m map[string][]ma.Multiaddr }
+type resolver struct {
+	m   map[string][]ma.Multiaddr
+	txt map[string][]ma.Multiaddr // dnsaddr name -> TXT entries
+}
 
-func (r resolver) ResolveDNSAddr(context.Context, peer.ID, ma.Multiaddr, int, int) ([]ma.Multiaddr, error) {
+func (r resolver) ResolveDNSAddr(_ context.Context, _ peer.ID, a ma.Multiaddr, _, _ int) ([]ma.Multiaddr, error) {
+	name, _ := ma.SplitLast(a) // the stored form may carry a /p2p suffix of its own
+	for _, k := range []string{a.String(), name.String()} {
+		if x, ok := r.txt[k]; ok {
+			return append([]ma.Multiaddr(nil), x...), nil
+		}
+	}
 	return nil, errors.New("no dnsaddr")
 }
 func (r resolver) ResolveDNSComponent(_ context.Context, a ma.Multiaddr, _ int) ([]ma.Multiaddr, error) {
@@ -305,10 +334,19 @@ func runScenario(t *testing.T, rt *rapid.T, name string, sc *scenario) {
 		defer ps.Close()
 		round := 0
 		byDialled := map[string]*addrSpec{}
-		res := resolver{m: map[string][]ma.Multiaddr{}}
+		res := resolver{m: map[string][]ma.Multiaddr{}, txt: map[string][]ma.Multiaddr{}}
 		for pi, as := range sc.addrs {
 			for _, a := range as {
 				byDialled[string(peerID(pi))+a.dialled.String()] = a
+				if a.kind == kDNSAddr {
+					e := a.dialled
+					if a.p2pSuffix {
+						e = e.Encapsulate(ma.StringCast("/p2p/" + peerID(pi).String()))
+					}
+					if len(res.txt[a.stored.String()]) == 0 {
+						res.txt[a.stored.String()] = []ma.Multiaddr{e}
+					}
+				}
 				if a.kind == kDNS {
 					dup := false
 					for _, x := range res.m[a.stored.String()] {
@@ -744,7 +782,37 @@ func checkRound(rt *rapid.T, sc *scenario, round int, results []*callResult, w *
 			if pt == 0 {
 				pt = network.DialPeerTimeout
 			}
+			// O8 (no starvation): a caller that ran into its own deadline or the dial timeout was not
+			// left sitting with nothing in flight while one of its candidates had never been handed to
+			// a transport. Judged only where nothing else can explain the silence: the caller waited
+			// at least 3 s (every ranking delay is long over), during its last 2 s no dial to the peer
+			// and no FD-consuming dial to anybody was in flight (so no cap was binding), and the
+			// candidate has not failed anywhere in the case (so it cannot be in back-off).
+			starved := func() {
+				if cr.end.Sub(cr.start) < 3*time.Second || (cr.spec.cancelAt > 0 && !t0.Add(cr.spec.cancelAt).After(cr.end)) {
+					return
+				}
+				from := cr.end.Add(-2 * time.Second)
+				for _, d := range dials {
+					inWindow := d.Start.Before(cr.end) && (!d.Done || d.End.After(from))
+					if inWindow && (d.Peer == p || !strings.Contains(d.Addr.String(), "/udp/")) {
+						return
+					}
+				}
+				for as, a := range cs {
+					touched := false
+					for _, d := range dials {
+						if d.Peer == p && d.Addr.String() == as && (d.Start.After(cr.start) || d.Start.Equal(cr.start) || !d.Done || d.End.After(cr.start) || d.Err != nil) {
+							touched = true
+						}
+					}
+					if !touched {
+						fail("caller %d waited from %v to %v (%v) and during its last 2 s nothing was in flight, yet its candidate %s (%s) was never handed to a transport", ci, cr.start.Sub(t0), cr.end.Sub(t0), cr.err, as, kindNames[a.kind])
+					}
+				}
+			}
 			if cr.ctxDone {
+				starved()
 				// O6: a cancelled caller is released promptly (the same virtual instant)
 				want := time.Time{}
 				if cr.spec.cancelAt > 0 {
@@ -769,6 +837,7 @@ func checkRound(rt *rapid.T, sc *scenario, round int, results []*callResult, w *
 			}
 			if !cr.end.Before(cr.start.Add(pt)) {
 				labels["dial-peer-timeout"] = true
+				starved()
 				continue // the dial timeout ended
 			}
 			// O2/O4 error: every candidate must have failed, been refused or be in back-off by now
@@ -897,7 +966,7 @@ func probeTokens(rt *rapid.T, sc *scenario, sw *swarm.Swarm, ps interface {
 
 func TestDialSchedules(t *testing.T) {
 	name := t.Name()
-	hx.Check(t, 20000, 3000000, 0, func(rt *rapid.T) {
+	hx.Check(t, 40000, 3000000, 0, func(rt *rapid.T) {
 		sc := drawScenario(rt)
 		runScenario(t, rt, name, sc)
 	})
